@@ -20,6 +20,10 @@ import uuid as _uuid, decimal as _decimal
 TRACE = _uuid.UUID(int=7); AMOUNT = _decimal.Decimal('1.10')
 class EmptyAggregate(Exception):          # a legal exception that is FALSY (an aggregate of sub-errors with __len__, raised with none): `if exc:` is not `if exc is not None:`
     def __len__(self): return len(self.args)
+import dataclasses as _dc2
+@_dc2.dataclass(frozen=True)
+class FrozenError(Exception):          # a legal exception class that forbids attribute assignment from Python code (frozen dataclass)
+    code: int = 0
 class Unprintable(Exception):          # a legal exception whose str()/repr() raise (a broken __str__ in user code): formatting it eagerly inside an error path raises again
     def __str__(self): raise RuntimeError("__str__ of the task's exception is broken")
     __repr__ = __str__
@@ -85,6 +89,7 @@ async def one(cfg):
         if outcome == 'base': ev.append(('task_end',)); raise MyBase("base")
         if outcome == 'raise_falsy': ev.append(('task_end',)); raise EmptyAggregate()
         if outcome == 'raise_unprintable': ev.append(('task_end',)); raise Unprintable("x")
+        if outcome == 'raise_frozen': ev.append(('task_end',)); raise FrozenError(3)
         if outcome == 'sysexit_with_timeout': ev.append(('task_end',)); raise SystemExit(3)          # the message carries a (generous) timeout label: the function runs under wait_for
         if outcome == 'noresult': ev.append(('task_end',)); raise NoResultError()
         ev.append(('task_end',)); return ('ret', x)
@@ -255,6 +260,27 @@ async def isolation(shape):
     bad = {mid: v for mid, v in seen.items() if v != (mid, mid, mid)}
     return bad, seen
 
+async def frozen_exception():
+    """a task failing with an exception object that forbids attribute assignment (frozen dataclass): teardown of a generator dependency, acknowledgement and
+    the stored error result are as for any other exception (no contextlib-based dependency here: contextlib itself assigns __traceback__)"""
+    from taskiq import InMemoryBroker, AckableMessage, TaskiqDepends
+    from taskiq.abc.broker import AsyncBroker
+    from taskiq.receiver import Receiver
+    from taskiq.message import TaskiqMessage
+    AsyncBroker.global_task_registry = {}
+    b = InMemoryBroker(); ev = []
+    def dep():
+        ev.append('dep_open')
+        try: yield 1
+        except BaseException as e: ev.append('dep_thrown:' + type(e).__name__); raise
+        finally: ev.append('dep_closed')
+    async def t(d=TaskiqDepends(dep)): ev.append('ran'); raise FrozenError(3)
+    b.register_task(t, task_name='t'); r = Receiver(b, run_startup=False, max_async_tasks=2); raised = None
+    try: await r.callback(AckableMessage(data=b.formatter.dumps(TaskiqMessage(task_id='id-f', task_name='t', labels={}, labels_types=None, args=[], kwargs={})).message, ack=lambda: ev.append('ack')))
+    except BaseException as e: raised = f"{type(e).__name__}: {str(e)[:60]}"
+    res = b.result_backend.results.get('id-f')
+    return ev, (None if res is None else (res.is_err, type(res.error).__name__)), raised
+
 async def kiq_model_arguments():
     """end to end through the kicker (client side: pydantic / dataclass arguments are dumped) and the receiver (worker side: parsed back): models whose
     fields have serialization aliases or default factories arrive with the caller's values, bound to the right parameters"""
@@ -380,7 +406,7 @@ def monitor(cfg, ev, raised):
     elif saves:
         _, tid, is_err, rv, err, lbl = saves[0]
         if tid != 'id-1': f.append(f"C06/C07: stored under {tid!r}")
-        want_err = {'return': None, 'raise': 'ValueError', 'raise_timeout_subclass': 'UpstreamTimeout', 'base': 'MyBase', 'timeout': 'TimeoutError', 'raise_falsy': 'EmptyAggregate', 'raise_unprintable': 'Unprintable', 'sysexit_with_timeout': 'SystemExit'}[oc]
+        want_err = {'return': None, 'raise': 'ValueError', 'raise_timeout_subclass': 'UpstreamTimeout', 'base': 'MyBase', 'timeout': 'TimeoutError', 'raise_falsy': 'EmptyAggregate', 'raise_unprintable': 'Unprintable', 'raise_frozen': 'FrozenError', 'sysexit_with_timeout': 'SystemExit'}[oc]
         if is_err != (want_err is not None) or err != want_err: f.append(f"C07: stored is_err={is_err} error={err} for outcome {oc}")
         if oc == 'return' and rv != repr(('ret', 41)): f.append(f"C07: stored return value {rv}")
         if lbl.get('lbl') != 7: f.append(f"C07: stored labels {lbl}")
@@ -500,6 +526,13 @@ def run(sc):
         bad, seen = asyncio.run(isolation(shape)); n += 1
         if bad or len(seen) != 2: fails.append({'key': 'isolation:' + shape, 'config': {'overlapping_messages': ['A', 'B'], 'dependency': shape},
                                 'failed_clauses': [f"C06: execution of message {mid} observed (dependency value, Context.task_id, label) = {v}" for mid, v in bad.items()] or ["C06: an execution did not complete"], 'trace': [str(seen)]})
+    ev_, res_, raised_ = asyncio.run(frozen_exception()); n += 1
+    if ev_ != ['dep_open', 'ran', 'dep_thrown:FrozenError', 'dep_closed', 'ack'] or res_ != (True, 'FrozenError') or raised_:
+        cl = []
+        if 'dep_closed' not in ev_ or 'dep_thrown:FrozenError' not in ev_: cl.append(f"C12: a task failed with an exception that forbids attribute assignment (frozen dataclass): events {ev_} - the generator dependency must see the exception and be finalised (callback raised: {raised_})")
+        if res_ != (True, 'FrozenError'): cl.append(f"C07: the same execution: stored result (is_err, error class) = {res_}, expected (True, 'FrozenError') (callback raised: {raised_})")
+        if ev_.count('ack') != 1: cl.append(f"C02: the same execution: acknowledged {ev_.count('ack')} times (callback raised: {raised_})")
+        fails.append({'key': 'frozen-exception', 'config': {'exception': '@dataclass(frozen=True) class FrozenError(Exception)'}, 'failed_clauses': cl or [f"C12: unexpected trace {ev_}"], 'trace': [str((ev_, res_, raised_))]})
     seen_, want_ = asyncio.run(kiq_model_arguments()); n += 1
     if seen_ != want_:
         fails.append({'key': 'kiq-model-arguments', 'config': {'model': 'class Aliased(BaseModel): user_id: int = Field(serialization_alias="userId"); key: str = Field(default_factory=...)'},
